@@ -311,7 +311,7 @@ func c12concInstance(tr c12tree, backend string, cp *c12cp, threads [][]c12call)
 // c12After: the restored database must stay usable: a later multipart session that is started
 // and aborted must not touch the restored version, and a new version can be built on top of it.
 func c12After(ndb dbapi.NodeDB, root node.Root, c kv.Contents) string {
-	if err := ndb.StartMultipartInsert(root.Version + 3); err != nil {
+	if err := ndb.StartMultipartInsert(root.Version + 1); err != nil { // same version as the one built below: its tombstones would be visible there
 		return "starting a later multipart insert failed: " + err.Error()
 	}
 	if err := ndb.AbortMultipartInsert(); err != nil {
